@@ -143,45 +143,44 @@ Definition withdraw_msgs (me to : addr) (g : gbal) (f : option coin) : list out_
 
 (** ** Buckets *)
 
-Definition execute_create_bucket (creator_ : addr) (b : balance) (id : N) (s : mstate)
+(** Creation, generic in how the first deposit arrives: [ok] is the validity check of the
+    deposit ([normalized_check] for coins / CW20; the NFT path has none), [g] its content. *)
+Definition create_bucket_g (creator_ : addr) (ok : bool) (g : gbal) (id : N) (s : mstate)
   : result response :=
   if max_ok id && negb (memN id (b_used s))
      && negb (is_some (find_key (creator_, id) (buckets s)))
-     && normalized_check b
-  then Ok (mark_b (set_buckets s (put (creator_, id) (mkB creator_ (from_balance b) None) (buckets s))) id, [])
+     && ok
+  then Ok (mark_b (set_buckets s (put (creator_, id) (mkB creator_ g None) (buckets s))) id, [])
   else Err.
+
+Definition execute_create_bucket (creator_ : addr) (b : balance) (id : N) (s : mstate)
+  : result response := create_bucket_g creator_ (normalized_check b) (from_balance b) id s.
 
 Definition execute_create_bucket_cw721 (user : addr) (n : addr * tokid) (id : N) (s : mstate)
-  : result response :=
-  if max_ok id && negb (memN id (b_used s))
-     && negb (is_some (find_key (user, id) (buckets s)))
-  then Ok (mark_b (set_buckets s (put (user, id) (mkB user (from_nft n) None) (buckets s))) id, [])
-  else Err.
+  : result response := create_bucket_g user true (from_nft n) id s.
 
-Definition execute_add_to_bucket (sender : addr) (b : balance) (id : N) (s : mstate)
-  : result response :=
-  if negb (normalized_check b) then Err else
+(** Top-up, generic in the deposit: [ok] its validity check, [upd] how it is merged into the
+    funds (may panic on [Uint128] overflow). *)
+Definition add_to_bucket_g (sender : addr) (ok : bool) (upd : gbal -> result gbal) (id : N)
+           (s : mstate) : result response :=
+  if negb ok then Err else
   match find_key (sender, id) (buckets s) with
   | None => Err
   | Some bk =>
       if negb (sender =? owner bk) then Err else
-      g <- add_tokens (funds bk) b ;;
+      g <- upd (funds bk) ;;
       if genbal_cmp (funds bk) g then Err else
       if negb (check_valid g) then Err else
       Ok (set_buckets s (put (sender, id) (mkB (owner bk) g (bfee bk)) (buckets s)), [])
   end.
 
+Definition execute_add_to_bucket (sender : addr) (b : balance) (id : N) (s : mstate)
+  : result response :=
+  add_to_bucket_g sender (normalized_check b) (fun g => add_tokens g b) id s.
+
 Definition execute_add_to_bucket_cw721 (user : addr) (n : addr * tokid) (id : N) (s : mstate)
   : result response :=
-  match find_key (user, id) (buckets s) with
-  | None => Err
-  | Some bk =>
-      if negb (user =? owner bk) then Err else
-      let g := add_nft (funds bk) n in
-      if genbal_cmp (funds bk) g then Err else
-      if negb (check_valid g) then Err else
-      Ok (set_buckets s (put (user, id) (mkB (owner bk) g (bfee bk)) (buckets s)), [])
-  end.
+  add_to_bucket_g user true (fun g => Ok (add_nft g n)) id s.
 
 Definition execute_withdraw_bucket (e : env) (user : addr) (id : N) (s : mstate)
   : result response :=
@@ -204,27 +203,24 @@ Definition wl_ok (user : addr) (w : option addr) : bool :=
 Definition new_listing (user : addr) (id : N) (w : option addr) (g a : gbal) : listing :=
   mkL user id None None BeingPrepared None w g a None.
 
-Definition execute_create_listing (user : addr) (b : balance) (id : N) (a : gbal) (w : option addr)
+Definition create_listing_g (user : addr) (ok : bool) (g : gbal) (id : N) (a : gbal) (w : option addr)
            (s : mstate) : result response :=
-  if max_ok id && normalized_check b && negb (memN id (l_used s))
+  if max_ok id && ok && negb (memN id (l_used s))
      && negb (is_some (find_by_id id (listings s)))
      && wl_ok user w
   then
     va <- validate_ask a ;;
-    ls <- save_listing (user, id) (new_listing user id w (from_balance b) va) (listings s) ;;
+    ls <- save_listing (user, id) (new_listing user id w g va) (listings s) ;;
     Ok (mark_l (set_listings s ls) id, [])
   else Err.
 
+Definition execute_create_listing (user : addr) (b : balance) (id : N) (a : gbal) (w : option addr)
+           (s : mstate) : result response :=
+  create_listing_g user (normalized_check b) (from_balance b) id a w s.
+
 Definition execute_create_listing_cw721 (user : addr) (n : addr * tokid) (id : N) (a : gbal)
            (w : option addr) (s : mstate) : result response :=
-  if max_ok id && negb (memN id (l_used s))
-     && negb (is_some (find_by_id id (listings s)))
-     && wl_ok user w
-  then
-    va <- validate_ask a ;;
-    ls <- save_listing (user, id) (new_listing user id w (from_nft n) va) (listings s) ;;
-    Ok (mark_l (set_listings s ls) id, [])
-  else Err.
+  create_listing_g user true (from_nft n) id a w s.
 
 Definition with_ask (l : listing) (a : gbal) : listing :=
   mkL (creator l) (lid l) (fin l) (exp l) (lstatus l) (claimant l) (wl l) (for_sale l) a (lfee l).
@@ -246,32 +242,30 @@ Definition execute_change_ask (sender : addr) (id : N) (a : gbal) (s : mstate) :
       Ok (set_listings s ls, [])
   end.
 
-Definition execute_add_to_listing (sender : addr) (b : balance) (id : N) (s : mstate)
-  : result response :=
-  if negb (normalized_check b) then Err else
+(** Top-up of a listing, generic in the deposit: [chk] is the final check (the coin path only
+    counts the assets, execute.rs:445; the NFT path runs [check_valid], execute.rs:512). *)
+Definition add_to_listing_g (sender : addr) (ok : bool) (upd : gbal -> result gbal)
+           (chk : gbal -> bool) (id : N) (s : mstate) : result response :=
+  if negb ok then Err else
   match find_key (sender, id) (listings s) with
   | None => Err
   | Some l =>
       if negb (editable sender l) then Err else
-      g <- add_tokens (for_sale l) b ;;
+      g <- upd (for_sale l) ;;
       if genbal_cmp (for_sale l) g then Err else
-      if negb (gsize g <=? MAX_NUM_ASSETS) then Err else
+      if negb (chk g) then Err else
       ls <- save_listing (sender, id) (with_for_sale l g) (listings s) ;;
       Ok (set_listings s ls, [])
   end.
 
+Definition execute_add_to_listing (sender : addr) (b : balance) (id : N) (s : mstate)
+  : result response :=
+  add_to_listing_g sender (normalized_check b) (fun g => add_tokens g b)
+                   (fun g => gsize g <=? MAX_NUM_ASSETS) id s.
+
 Definition execute_add_to_listing_cw721 (user : addr) (n : addr * tokid) (id : N) (s : mstate)
   : result response :=
-  match find_key (user, id) (listings s) with
-  | None => Err
-  | Some l =>
-      if negb (editable user l) then Err else
-      let g := add_nft (for_sale l) n in
-      if genbal_cmp (for_sale l) g then Err else
-      if negb (check_valid g) then Err else
-      ls <- save_listing (user, id) (with_for_sale l g) (listings s) ;;
-      Ok (set_listings s ls, [])
-  end.
+  add_to_listing_g user true (fun g => Ok (add_nft g n)) check_valid id s.
 
 Definition MIN_LIFE : N := 600.
 Definition MAX_LIFE : N := 1209600.
@@ -407,8 +401,11 @@ Definition execute_receive_nft (o : oracle) (info_sender : addr) (funds_ : list 
     coins; message fields are range-checked as the JSON decoder does. *)
 Definition no_funds (funds_ : list coin) : bool := match funds_ with [] => true | _ => false end.
 
+Definition coins_in_range (cs : list coin) : bool := forallb (fun c => snd c <? U128) cs.
+
 Definition execute (o : oracle) (e : env) (sender : addr) (funds_ : list coin) (m : exec_msg)
            (s : mstate) : result response :=
+  if negb (coins_in_range funds_) then Err else
   match m with
   | FeeCycle => if no_funds funds_ then execute_cycle_fee e s else Err
   | Receive sd amt inner =>
